@@ -14,11 +14,12 @@ TReset == IsEv("SReset") /\ Consume /\ SReset(Ev.cfg)
 TBegin == IsEv("STick") /\ Consume /\ TickBegin(Ev.cgs, Ev.sys)
 TWrite == IsEv("CtlWrite") /\ Consume /\ Write(Ev.p, Ev.file, Ev.v)
 TWriteFailed == IsEv("CtlWriteFailed") /\ Consume /\ WriteFailed(Ev.p, Ev.file)
+TVanish == IsEv("Vanish") /\ Consume /\ Vanish(Ev.p)
 TSwp == IsEv("Swp") /\ Consume /\ Swappiness(Ev.v)
 TTickEnd == IsEv("STickEnd") /\ Consume /\ TickEnd
 TEnd == IsEv("SEnd") /\ Consume /\ pos = 0 /\ UNCHANGED sv
 TSilent == SSilent /\ UNCHANGED l
-TraceNext == TReset \/ TBegin \/ TWrite \/ TWriteFailed \/ TSwp \/ TTickEnd \/ TEnd \/ TSilent
+TraceNext == TReset \/ TVanish \/ TBegin \/ TWrite \/ TWriteFailed \/ TSwp \/ TTickEnd \/ TEnd \/ TSilent
 TraceSpec == TraceInit /\ [][TraceNext]_tvars
 TraceProgress == TLCSet(1, IF TLCGet(1) < l THEN l ELSE TLCGet(1))
 TraceAccepted == /\ PrintT(<<"MAXL", TLCGet(1), "OF", N>>) /\ TLCGet(1) = N + 1
